@@ -145,6 +145,12 @@ pub fn model_cases(r: &mut Rng, n: usize) -> Vec<Case> {
                 &format!("{}{}{}", lit(lo), if inc { "..=" } else { ".." }, lit(hi)), "i", "_i", ""));
         }
     }
+    // ---- ranges above MAX_RANGE_SIZE (10^7 elements): TooLarge on both sides (the cap itself would need 10^7 constraints)
+    for (lo, hi, inc) in [(0i64, 10_000_001i64, false), (0, 10_000_000, true), (-5_000_000, 5_000_001, false), (1, 10_000_002, false), (0, 100_000_000_000, false), (-9_000_000_000, 9_000_000_000, true)] {
+        let mut c = iter_case("range:above-cap", format!("range {} {} {}", lo, hi, inc), &format!("{}{}{}", lit(lo), if inc { "..=" } else { ".." }, lit(hi)), "i", "_i", "");
+        c.nontrivial = true;
+        out.push(c);
+    }
     // ---- enumerate / zip / set functions over literal arrays
     for _ in 0..n / 8 {
         let a: Vec<i64> = (0..r.below(5)).map(|_| r.range(0, 9)).collect();
